@@ -54,6 +54,16 @@ static J gen_oceanic(Chooser &ch)
         }
     }
   else if (kind == "plate model constant age") t["plate age"] = ch.logreal(1e6, 2e8);
+  // 35%: the plate thickness is given point-wise (the plate thins towards some of its corners); feature and model share the surface
+  if (ch.chance(35))
+    {
+      J surf = J::arr();
+      surf.push(J::arr({J(m.dmax)}));
+      for (size_t i = 0; i < m.coords.size(); ++i)
+        if (ch.chance(60) && m.coords[i][0] != 0 && m.coords[i][1] != 0)
+          surf.push(J::arr({J(ch.lattice(0.2, 1.0, 0.1) * m.dmax), J::arr({jp(m.coords[i][0], m.coords[i][1])})}));
+      if (surf.size() > 1) { feat["max depth"] = surf; t["max depth"] = surf; }
+    }
   feat["temperature models"] = J::arr({t});
   root["features"] = J::arr({feat});
   g::GW w; w.fr = fr; w.root = root; w.feats.push_back(m);
@@ -71,8 +81,11 @@ static Result check_oceanic(const J &c)
   auto W = make_world(c.at("world").str());
   const J &t = root.at("features")[0].at("temperature models")[0];
   const std::string kind = t.at("model").str();
-  const double L = t.at("max depth").num(), Tt = t.at("top temperature").num(), H = c.at("H").num();
+  // a point-wise thickness: L is the largest value (the bare default); where the plate ends locally is left to the library's tag
+  const bool variable_L = t.at("max depth").is_arr();
+  const double L = variable_L ? t.at("max depth")[0][0].num() : t.at("max depth").num(), Tt = t.at("top temperature").num(), H = c.at("H").num();
   r.classes.push_back(kind);
+  if (variable_L) r.classes.push_back("point-wise plate thickness");
   auto T_at = [&](double x, double y, double depth, double &tag) {
     const std::vector<double> o = W->properties({{x, y, H - depth}}, depth, {{{1, 0, 0}}, {{4, 0, 0}}});
     tag = o[1];
@@ -117,7 +130,7 @@ static Result check_oceanic(const J &c)
       const double T0 = T_at(x, y, 0.0, tg0);
       if (tg0 != -1 && std::fabs(T0 - Tt) > 1e-6 * Tt + (series ? 1e-6 : 0))
         return Result::fail("oceanic-top-temperature/" + kind, "oceanic '" + kind + "' returns " + fmt(T0) + " at its top (depth 0), the top temperature is " + fmt(Tt));
-      if (series || kind == "linear")
+      if ((series || kind == "linear") && !variable_L)
         {
           double tgL;
           const double TL = T_at(x, y, L, tgL);
